@@ -162,7 +162,9 @@ func c17Units(tier string, seed int64) []Unit {
 		p := progThreshold(100)
 		log := RunCheck(p, NewEnv(nil, p.Base), Config{Checks: 20, Seed: seedv, ShrinkMS: -1, Name: name})
 		for _, k := range sortedKeys(log.Files) {
-			return []byte(log.Files[k])
+			// package log stamps the captured output with the wall clock; a fixed stamp keeps the variant
+			// list (and therefore the sharding and every replay) identical from process to process
+			return []byte(reCommentStamp.ReplaceAllString(log.Files[k], "# 2026/01/02 03:04:05.000000 "))
 		}
 		return nil
 	}
